@@ -738,7 +738,10 @@ pub fn check_build(o: &BuildObs, or: &Oracles, stats: &mut Stats, out: &mut Vec<
                     }
                     continue;
                 }
-                let restored = o.rr.log.muts.iter().any(|m| m.ok && !m.in_cmd && matches!(&m.kind, MutKind::Rename { to, .. } if *to == t) && m.path.starts_with(".ruler/cache/"));
+                // "recovered" = ruler itself (not a command) put a file at the target path: by a rename onto it
+                // (what it does today) or by creating / writing it (a copy-based restore would be as good)
+                let restored = o.rr.log.muts.iter().any(|m| m.ok && !m.in_cmd && (matches!(&m.kind, MutKind::Rename { to, .. } if *to == t)
+                    || (m.path == t && matches!(&m.kind, MutKind::CreateFile { .. } | MutKind::Write { .. }))));
                 let touched = o.rr.log.muts.iter().any(|m| m.ok && (m.path == t || matches!(&m.kind, MutKind::Rename { to, .. } if *to == t)));
                 let want = if cmd_ran { "Built" } else if restored { "Recovered" } else if !touched { "Up-to-date" } else { "?" };
                 if got.len() != 1 || (want != "?" && got[0] != want)
@@ -790,7 +793,7 @@ pub fn check_c08(sc: &Scenario, pre: &Fs, post: &Fs, log: &Log, opname: &str, st
             {
                 if let Some(prev) = dest_prev
                 {
-                    if moved.as_ref() != Some(prev) && (paths.contains(to) || to.starts_with(".ruler/cache/"))
+                    if moved.as_ref() != Some(prev) && (paths.contains(to) || to.starts_with(".ruler/cache/")) && !after.contains(prev)
                     {
                         out.push(Finding
                         {
@@ -803,7 +806,7 @@ pub fn check_c08(sc: &Scenario, pre: &Fs, post: &Fs, log: &Log, opname: &str, st
             },
             MutKind::CreateFile { prev: Some(prev) } =>
             {
-                if paths.contains(&m.path) || m.path.starts_with(".ruler/cache/")
+                if (paths.contains(&m.path) || m.path.starts_with(".ruler/cache/")) && !after.contains(prev)
                 {
                     out.push(Finding
                     {
@@ -815,7 +818,11 @@ pub fn check_c08(sc: &Scenario, pre: &Fs, post: &Fs, log: &Log, opname: &str, st
             },
             MutKind::Remove { prev: Some(prev) } =>
             {
-                out.push(Finding { property: "C08", what: format!("ruler removed a file during {}", opname), detail: format!("{} {:?}", m.path, show(prev)) });
+                // removing one of its own temporary or state files loses no content of a target or of the cache
+                if (paths.contains(&m.path) || m.path.starts_with(".ruler/cache/")) && !after.contains(prev)
+                {
+                    out.push(Finding { property: "C08", what: format!("ruler removed a file during {}", opname), detail: format!("{} {:?}", m.path, show(prev)) });
+                }
             },
             _ => {},
         }
